@@ -11,7 +11,12 @@
                        visibility = label of the declaring section, comment, class modification followed by the
                        declaration value as one `value` argument (spec_cm); order and object ids erased;
      ideal_exts, fold_imp (imports_els …), cnames_els, sel init secs   likewise extends / imports / nested classes /
-                       equations and statements of the (non-)initial sections. *)
+                       equations and statements of the (non-)initial sections.
+   `modelled e = true`: no element redeclaration inside the modification of a component (declared, or itself
+   redeclared inside an extends clause).  On such texts /repo HEAD corrupts the listener state (known finding
+   redeclare-in-component-modification, repair fixes/C04_redeclare_in_component_modification.diff) and the model
+   does not mirror it; the hypothesis is not used by the proofs, it delimits where the model is tied to the code.
+   Redeclarations directly in an extends argument list ARE modelled: they produce no symbol of the class. *)
 From Coq Require Import String List Bool Arith Sorting.Sorted Sorting.Permutation.
 From PV Require Import Model.C04_listener Proofs.C04_listener Proofs.C04_walk.
 Import ListNotations.
@@ -21,13 +26,14 @@ Open Scope string_scope.
    comment and modifications as declared; names pairwise distinct.  Unbounded: any number of sections, clauses,
    declarators, nested classes; any listener state. *)
 Theorem C04_symbols path ct n cm secs eqs algs st r cls st' :
+  modelled (ECls ct n cm secs eqs algs) = true ->
   do_element head_variant path (ECls ct n cm secs eqs algs) st = Ok ((r, cls), st') ->
   exists own nested, cls = own :: nested
     /\ map erase_sym (o_syms own) = ideal_syms secs
     /\ map s_name (o_syms own) = names_els (all_els secs)
     /\ NoDup (map s_name (o_syms own)).
 Proof.
-  intros H. destruct st as [k l], st' as [k' l']. pose proof (class_ok _ _ _ _ _ _ _ _ _ _ _ _ _ _ H) as C.
+  intros _ H. destruct st as [k l], st' as [k' l']. pose proof (class_ok _ _ _ _ _ _ _ _ _ _ _ _ _ _ H) as C.
   destruct C as (own & nested & E & _ & _ & _ & Hs & _). subst cls.
   exists own, nested. destruct (class_names_nodup _ _ _ _ _ _ _ _ _ _ _ _ _ H) as [A B].
   rewrite class_syms_head in Hs. auto.
@@ -38,6 +44,7 @@ Print Assumptions C04_symbols.
    visibility of their section), imports and nested classes attached to the class that declares them — the
    enclosing class gains the class name only *)
 Theorem C04_sections path ct n cm secs eqs algs k l r cls k' l' :
+  modelled (ECls ct n cm secs eqs algs) = true ->
   do_element head_variant path (ECls ct n cm secs eqs algs) (k, l) = Ok ((r, cls), (k', l')) ->
   exists own nested, cls = own :: nested
     /\ o_path own = (path ++ [n])%list /\ o_ctype own = ct /\ o_comment own = cm
@@ -48,7 +55,7 @@ Theorem C04_sections path ct n cm secs eqs algs k l r cls k' l' :
     /\ o_classes own = cnames_els (all_els secs)
     /\ k_classes k' = (k_classes k ++ [n])%list /\ k_seen k' = k_seen k /\ k_imports k' = k_imports k.
 Proof.
-  intros H. apply class_ok in H.
+  intros _ H. apply class_ok in H.
   destruct H as (own & nested & E & A1 & A2 & A3 & _ & A4 & A5 & A6 & A7 & A8 & A9 & A10 & _ & B1 & B2 & B3).
   rewrite class_exts_head in A4. exists own, nested. repeat split; assumption.
 Qed.
@@ -65,21 +72,23 @@ Print Assumptions C04_duplicate.
    are exactly the order numbers (and object ids) of the symbols of the parsed classes, and within every class the
    symbol table — which C04_symbols shows to be in source order — has strictly increasing order numbers *)
 Theorem C04_order v cs out lf :
+  forallb modelled cs = true ->
   run_file_full v cs = Ok (out, lf) -> Forall is_cls cs ->
   StronglySorted lt (map kord (l_trace lf))
   /\ Permutation (l_trace lf) (map key (flat_map o_syms out))
   /\ Forall (fun c => StronglySorted lt (map s_order (o_syms c))) out.
-Proof. exact (file_order v cs out lf). Qed.
+Proof. intros _. exact (file_order v cs out lf). Qed.
 Print Assumptions C04_order.
 
 (* no sharing after the walk of a whole file: no two symbols — of the same clause, of different clauses, of
    different classes — point at the same prefixes / dimensions / type object.  (The allocation stamp only grows;
    the first symbol of a clause keeps the clause's objects, which are older than every copy.) *)
 Theorem C04_no_sharing v cs out lf :
+  forallb modelled cs = true ->
   run_file_full v cs = Ok (out, lf) -> Forall is_cls cs ->
   NoDup (map s_pid (flat_map o_syms out)) /\ NoDup (map s_did (flat_map o_syms out))
   /\ NoDup (map s_tid (flat_map o_syms out)).
-Proof. exact (file_no_sharing v cs out lf). Qed.
+Proof. intros _. exact (file_no_sharing v cs out lf). Qed.
 Print Assumptions C04_no_sharing.
 
 (* the same refinement for every variant, with the variant's effective visibility / dimensions; and when these
@@ -134,6 +143,14 @@ Example C04_example :
     /\ o_eqs own = ["(= a b)"; "(= i 2)"] /\ o_ieqs own = ["(= a 1)"]
     /\ NoDup (map s_pid (o_syms own)) /\ NoDup (map s_did (o_syms own)) /\ NoDup (map s_tid (o_syms own))
     /\ length nested = 1 /\ labels_once [(Unl, tt); (Pub, tt); (Pro, tt)] = true
-    /\ map kord (l_trace (snd st')) = [0; 1; 3; 4; 5].
-Proof. exact example_ok. Qed.
+    /\ map kord (l_trace (snd st')) = [0; 1; 3; 4; 5]
+    /\ modelled example_class = true /\ modelled redecl_example = true
+    /\ (forall st, exists own nested st'',
+          do_element head_variant [] redecl_example st = Ok ((ROther, own :: nested), st'')
+          /\ map s_name (o_syms own) = ["z"]).
+Proof.
+  destruct example_ok as (own & nested & st' & H).
+  exists own, nested, st'. repeat split; try apply H; try reflexivity.
+  intros [k l]. eexists; eexists; eexists. split; reflexivity.
+Qed.
 Print Assumptions C04_example.
